@@ -73,6 +73,8 @@ def run_unit(prop, u, tier, scratch, keep=False):
         if r['rc'] != 0:
             raise Undecided('ir2c: ' + r['err'].strip()[-1500:])
         summ = json.load(open(os.path.join(wd, 'u.json')))
+        for f in summ['functions']: DEMANGLE[f['c']] = f['demangled']
+        for b in summ['boundary']: DEMANGLE[re.sub(r'[^A-Za-z0-9_]', '_', b['mangled'])] = b['demangled']
         res['functions'] = [dict(name=f['demangled'], src=f['src'], loops=f['loops']) for f in summ['functions']]
         res['boundary'] = [b['demangled'] for b in summ['boundary']]
         res['atomics'] = summ.get('atomics', [])
@@ -112,7 +114,9 @@ def run_unit(prop, u, tier, scratch, keep=False):
         if u.get('unwind'):
             n = u['unwind'][tier] if isinstance(u['unwind'], dict) else u['unwind']
             cmd += ['--unwind', str(n), '--unwinding-assertions']
+        if u.get('unwindset'): cmd += ['--unwindset', ','.join(u['unwindset'])]
         if u.get('solver_flag'): cmd += [u['solver_flag']]
+        if u.get('object_bits'): cmd += ['--object-bits', str(u['object_bits'])]
         tmo = u.get('timeout', {}).get(tier, 600) if isinstance(u.get('timeout'), dict) else u.get('timeout', 600 if tier == 'quick' else 3600)
         r = sh(cmd, cwd=wd, timeout=tmo, mem_gb=u.get('mem_gb', 16))
         res['cmds'].append(' '.join(cmd))
@@ -191,11 +195,26 @@ def classify(u, pr):
         return 'sentinel'
     return 'obligation'
 
+_src_cache = {}
+def src_line(path, line):
+    try:
+        if path not in _src_cache:
+            _src_cache[path] = open(path, errors='replace').read().split('\n')
+        return _src_cache[path][int(line) - 1].strip()
+    except Exception:
+        return ''
+
 def obligation_name(prop, u, pr):
-    loc = ''
+    loc = ''; clause = ''
     if pr.get('file') and pr.get('line'):
         loc = ' @%s:%s' % (os.path.basename(pr['file']), pr['line'])
-    return '%s/%s/%s [%s]%s' % (prop, u['name'], pr['id'], pr['desc'], loc)
+        f = pr['file']
+        if f.startswith(os.path.join(VERIF, 'specs')) or f.startswith(LIB):
+            t = src_line(f, pr['line'])
+            if t.startswith('__CPROVER_') or 'assert' in t: clause = ' {%s}' % t[:220]
+    return '%s/%s/%s [%s]%s%s' % (prop, u['name'], pr['id'], re.sub(r'_Z\w+', lambda m: DEMANGLE.get(m.group(0), m.group(0)), pr['desc']), loc, clause)
+
+DEMANGLE = {}
 
 def finding_matches(kf, prop, unit, pr):
     if kf.get('property') != prop: return False
@@ -253,6 +272,8 @@ def main():
                     pu['discharged'] += 1
                     if len(samples) < 12 and pr['desc'] and not pr['desc'].startswith('dereference') and (len(samples) < 4 or hash(pr['desc']) % 7 == 0):
                         samples.append(obligation_name(prop, u, pr))
+                elif pr['status'] == 'FAILURE' and pr['desc'].startswith('unwinding assertion') and not u.get('unwind_is_invariant'):
+                    undecided.append((u, dict(r, reason='unwinding bound too small: %s at %s:%s' % (pr['id'], pr.get('file'), pr.get('line')))))
                 elif pr['status'] == 'FAILURE':
                     kf = next((k for k in open_kfs if finding_matches(k, prop, u['name'], pr)), None)
                     if kf: known.append((kf, u, pr))
@@ -279,6 +300,7 @@ def main():
             rc = 1
             os.makedirs(replay_dir, exist_ok=True)
             import replay as replay_mod
+            vcount = {}
             for u, r, pr in violations:
                 path = os.path.join(replay_dir, '%s-%s.json' % (u['name'], re.sub(r'[^A-Za-z0-9_.]', '_', pr['id'] or 'x')))
                 rep = dict(property=prop, unit=u['name'], obligation=obligation_name(prop, u, pr), cbmc_property=pr['id'], description=pr['desc'],
@@ -293,11 +315,18 @@ def main():
                 if nat.get('replayed') not in ('native', 'tsan', 'schedule'):
                     tail = ' no-failing-input-found'
                 json.dump(rep, open(path, 'w'), indent=1)
-                lines.append('VIOLATION property=%s replay=%s obligation="%s"%s' % (prop, path, obligation_name(prop, u, pr)[:300], tail))
+                vcount[u['name']] = vcount.get(u['name'], 0) + 1
+                if vcount[u['name']] <= 6:
+                    lines.append('VIOLATION property=%s replay=%s obligation="%s"%s' % (prop, path, obligation_name(prop, u, pr)[:300], tail))
+                elif vcount[u['name']] == 7:
+                    lines.append('  (further failed obligations of unit %s: see %s/)' % (u['name'], replay_dir))
         if undecided and rc == 0:
             rc = 2
+        und_by_unit = {}
         for u, r in undecided:
-            lines.append('UNDECIDED property=%s unit=%s reason=%s' % (prop, u['name'], (r.get('reason') or '').replace('\n', ' ')[:1500]))
+            und_by_unit.setdefault(u['name'], []).append((r.get('reason') or '').replace('\n', ' '))
+        for un, rs in und_by_unit.items():
+            lines.append('UNDECIDED property=%s unit=%s reason=%s%s' % (prop, un, rs[0][:1500], (' (+%d more)' % (len(rs) - 1)) if len(rs) > 1 else ''))
         for ln in lines: print(ln)
         wall = time.time() - t0
         print('%s %s: units=%d obligations=%d discharged=%d bounded_obligations=%d/%d violations=%d known=%d undecided=%d wall=%.1fs' % (
